@@ -99,7 +99,7 @@ def factory_hook(captured):
         if name == "polygon" and isinstance(recv, Obj) and str(recv) == "class:Primitive":
             captured["vertices"] = list(args[0])
             return "SHAPE"
-        if name == "empty" or name == "linspace" or name in ("cos", "sin"):
+        if name == "empty" or name in ("linspace", "arange") or name in ("cos", "sin"):
             raise Undecided("numpy trigonometry")
         return NotImplemented
     return hook
@@ -453,6 +453,18 @@ def r16_5(ctx):
                 lo, hi, cnt = args[0], args[1], args[2]
                 if kwargs.get("endpoint", True) is not False or lo != 0 or abs(hi - math.tau) > 1e-12:
                     cap["angles"] = f"linspace({lo}, {hi}, {cnt}, endpoint={kwargs.get('endpoint', True)})"
+                return NVec(range(cnt))
+            if name == "arange":
+                a = list(args)
+                start, stop, step = (0, a[0], kwargs.get("step", 1)) if len(a) == 1 else \
+                    (a[0], a[1], a[2] if len(a) > 2 else kwargs.get("step", 1))
+                if all(isinstance(v, int) and not isinstance(v, bool) for v in (start, stop, step)):
+                    return NVec(range(start, stop, step))
+                # a non-integer step: numpy takes ceil((stop - start) / step) angles, computed in floating point
+                cnt = math.ceil((stop - start) / step)
+                off = [m for m in range(3, 400) if math.ceil(math.tau / (math.tau / m)) != m][:4]
+                cap["angles"] = (f"arange({start}, {stop}, {step}): the number of angles is ceil((stop - start) / step) in "
+                                 f"floating point, which is not nsides for every nsides (e.g. nsides = {off})")
                 return NVec(range(cnt))
             if name in ("cos", "sin") and args and isinstance(args[0], NVec):
                 return NVec([Sym(poly.atom(f"{name}{k}")) for k in args[0].items])
